@@ -33,3 +33,22 @@ def runExit (c : Case) : Verdict :=
     model := if want == "accept" then "exit=0;timeout=0" else "exit!=0;timeout=0" }
 
 end Gofasta.Driver
+
+namespace Gofasta.Driver
+open Gofasta.Model
+
+/-- REORD: the exported writers fed an arbitrary arrival permutation; model = L-reorder's `Reorder.run` -/
+def runReord (c : Case) : Verdict :=
+  let perm := c.natList "perm"
+  let sl := c.nat "seqlen"
+  let w := c.int "wrap"
+  let recText (i : Nat) : String :=
+    let seq := List.replicate sl ("ACGT".toList.getD (i % 4) 'A')
+    ">r" ++ toString i ++ "\n" ++
+      (if w > 0 then String.join ((List.range ((sl + w.toNat - 1) / w.toNat)).map fun k => String.ofList ((seq.drop (k * w.toNat)).take w.toNat) ++ "\n")
+       else String.ofList seq ++ "\n")
+  let model := String.join (Reorder.run (perm.map fun i => (i, recText i)))
+  let spec := String.join ((List.range (c.nat "n")).map recText)
+  functional (c.get "go") model spec
+
+end Gofasta.Driver
